@@ -25,7 +25,7 @@ open Verif Verif.TTH Verif.Frame
 
   `decodeRd r` = `ttheader.Decode(ctx, r)` for a `*bufiox.DefaultReader` / BytesReader in state `r`
   (Model/TTHeader over Model/Reader); `r.remaining` = unread buffered bytes ++ what the source still has
-  (C04's abstraction function); `RdOK r` = C04's invariant `Inv r` and sizes below 2^60 (C04's domain).
+  (C04's abstraction function); `RdOK r` = C04's invariant `Inv r` and sizes below 2^40 (C04's domain).
   `decodeBytes b cap` = Decode over `bufiox.NewBytesReader(b)` (C10's subject). -/
 
 /-- **soundness over ANY source** (any fragmentation, empty reads, errors at any point, any buffer state):
